@@ -26,6 +26,7 @@
 #include <sched.h>
 #include <stdarg.h>
 #include <setjmp.h>
+#include <signal.h>
 
 /* a failing ABTI_ASSERT inside a white-box call (mode X) is a result, not a
  * crash: this definition takes precedence over libc's */
@@ -817,6 +818,18 @@ static void do_p(char *line, int hist)
     free(ws);
 }
 
+/* watchdog: a case that does not finish (lost wake-up, endless list walk) */
+static char vh_cur_case[256];
+static void vh_on_alarm(int sig)
+{
+    static const char m1[] = "harness watchdog: case did not finish (hang): ";
+    (void)sig;
+    if (write(2, m1, sizeof(m1) - 1) < 0 || write(2, vh_cur_case, strlen(vh_cur_case)) < 0 ||
+        write(2, "\n", 1) < 0)
+        _exit(9);
+    _exit(9);
+}
+
 int main(int argc, char **argv)
 {
     FILE *f = argc > 1 ? fopen(argv[1], "r") : stdin;
@@ -827,7 +840,10 @@ int main(int argc, char **argv)
     if (!f)
         VH_DIE("cannot open case file");
     setvbuf(stdout, NULL, _IOLBF, 0);
+    signal(SIGALRM, vh_on_alarm);
     while ((line = vh_getline(f)) != NULL) {
+        strncpy(vh_cur_case, line, sizeof(vh_cur_case) - 1);
+        alarm(getenv("VH_WATCHDOG") ? (unsigned)atoi(getenv("VH_WATCHDOG")) : 20);
         if (line[0] == 'X' && !hist)
             do_x(line);
         else if (line[0] == 'A')
